@@ -338,3 +338,17 @@ Definition probe_result (hrp : Z) (md : mode) (s : state) (a : Z) (p : probe) : 
   | DDisabled => PFail
   | DNone => POkEmpty
   end.
+
+(* The same call made by a contract instead of by the transaction itself: a forwarding contract passes its calldata
+   on with CALL or STATICCALL (all remaining gas), hands the callee's return data back and REVERTs with it when the
+   call failed.  evm.Call / evm.StaticCall look the callee up with the same evm.precompile(); a callee that fails
+   (disabled contract) makes the forwarder revert. *)
+Inductive via := Direct | ViaCall | ViaStaticCall.
+
+Definition through_forwarder (r : pres) : pres := match r with PFail => PRevert | x => x end.
+
+Definition probe_via (hrp : Z) (md : mode) (v : via) (s : state) (a : Z) (p : probe) : pres :=
+  match v with
+  | Direct => probe_result hrp md s a p
+  | _ => through_forwarder (probe_result hrp md s a p)
+  end.
